@@ -139,6 +139,16 @@ func H03_caps() {
 	t := hNewTScreen(ti.Name)
 	caps := h03Caps(t.ti)
 	vsymAssert(len(t.keycodes) > 0, "the key table is built for every description")
+	// no defined sequence is a proper prefix of another (so decoding cannot depend on map iteration order)
+	clash := ""
+	for a := range t.keycodes {
+		for b := range t.keycodes {
+			if len(a) < len(b) && strings.HasPrefix(b, a) && !(len(a) == 1 && a[0] == 0x1b) {
+				clash = a + " < " + b
+			}
+		}
+	}
+	vsymAssert(clash == "", "no defined key sequence is a proper prefix of another: "+ti.Name)
 	alt := vsymChoice("alt", 2) == 1
 	sfx := vsymByte("suffix")
 	vsymAssume(vsymAnd(sfx >= 'a', sfx <= 'z')) // a following key press
